@@ -19,6 +19,8 @@ pub enum Step {
     CommentShard(u8),
     LiteralKey(i64, u8),
     ShowShard,
+    /// RELOAD with a configuration that has this many shards and this sharding function; the connected client goes on
+    Reload(u8, bool),
 }
 
 #[derive(Clone, Debug, Serialize, Deserialize)]
@@ -43,7 +45,7 @@ impl Part for WirePart {
         true
     }
     fn rule(&self) -> String {
-        "2..5 or 11..13 shards (one mock primary each, optionally a replica), pg_bigint_hash or sha1; sessions of 2..10 steps over {SET SHARD n (in and out of range), SET SHARDING KEY k, plain tagged query, query with sharding_key / shard_id comment, query with a literal equated to the automatic sharding key (4 shapes), SHOW SHARD}; model = sticky shard selection with the reference partition function; oracle: each tagged statement is logged by a backend of the model's shard, out-of-range SET SHARD answers an error and leaves the selection, SHOW SHARD prints the model's value. Non-trivial = at least two different shards selected in the session or an out-of-range SET SHARD".into()
+        "2..5 or 11..13 shards (one mock primary each, optionally a replica), pg_bigint_hash or sha1; sessions of 2..10 steps over {SET SHARD n (in and out of range), SET SHARDING KEY k, plain tagged query, query with sharding_key / shard_id comment, query with a literal equated to the automatic sharding key (4 shapes), SHOW SHARD, RELOAD to another shard count / sharding function while the client stays connected}; model = sticky shard selection with the reference partition function; oracle: each tagged statement is logged by a backend of the model's shard, out-of-range SET SHARD answers an error and leaves the selection, SHOW SHARD prints the model's value. Non-trivial = at least two different shards selected in the session or an out-of-range SET SHARD".into()
     }
     fn cases(&self, tier: Tier) -> u64 {
         tier.pick(1_000, 12_000)
@@ -58,6 +60,7 @@ impl Part for WirePart {
             1 => (0u8..16).prop_map(Step::CommentShard),
             3 => (key, 0u8..4).prop_map(|(k, s)| Step::LiteralKey(k, s)),
             2 => Just(Step::ShowShard),
+            1 => (2u8..=5, any::<bool>()).prop_map(|(n, sha1)| Step::Reload(n, sha1)),
         ];
         (prop_oneof![4 => 2u8..=5, 2 => 11u8..=13], prop::bool::weighted(0.25), prop::bool::weighted(0.3), prop::collection::vec(step, 2..11))
             .prop_map(|(shards, sha1, replicas, steps)| Case { shards, sha1, replicas, steps })
@@ -69,13 +72,17 @@ impl Part for WirePart {
 }
 
 fn config(mocks: &[crate::mock::MockServer], c: &Case) -> PgcatConfig {
+    config_for(mocks, c.shards, c.sha1, c.replicas)
+}
+
+fn config_for(mocks: &[crate::mock::MockServer], n_shards: u8, sha1: bool, replicas: bool) -> PgcatConfig {
     let mut cfg = PgcatConfig::new();
     cfg.set_general("connect_timeout", "2000");
-    let per = if c.replicas { 2 } else { 1 };
+    let per = if replicas { 2 } else { 1 };
     let mut shards = vec![];
-    for s in 0..c.shards as usize {
+    for s in 0..n_shards as usize {
         let mut servers = vec![ServerDef { host: mocks[s * per].ip.clone(), port: mocks[s * per].port, role: "primary".into() }];
-        if c.replicas {
+        if replicas {
             servers.push(ServerDef { host: mocks[s * per + 1].ip.clone(), port: mocks[s * per + 1].port, role: "replica".into() });
         }
         shards.push(ShardDef { id: s.to_string(), database: format!("shard{}", s), servers, mirrors: vec![] });
@@ -87,7 +94,7 @@ fn config(mocks: &[crate::mock::MockServer], c: &Case) -> PgcatConfig {
             ("query_parser_enabled".into(), "true".into()),
             ("query_parser_read_write_splitting".into(), "true".into()),
             ("primary_reads_enabled".into(), "true".into()),
-            ("sharding_function".into(), if c.sha1 { "\"sha1\"".into() } else { "\"pg_bigint_hash\"".into() }),
+            ("sharding_function".into(), if sha1 { "\"sha1\"".into() } else { "\"pg_bigint_hash\"".into() }),
             ("automatic_sharding_key".into(), "\"data.id\"".into()),
             ("sharding_key_regex".into(), "'/\\* sharding_key: (\\d+) \\*/'".into()),
             ("shard_id_regex".into(), "'/\\* shard_id: (\\d+) \\*/'".into()),
@@ -103,7 +110,8 @@ async fn run_case(c: &Case, ctx: &mut WorkerCtx) -> Outcome {
     let mut o = Outcome::pass();
     let per = if c.replicas { 2 } else { 1 };
     let mut specs = vec![];
-    for s in 0..c.shards as usize {
+    let max_shards = c.steps.iter().filter_map(|s| if let Step::Reload(n, _) = s { Some(*n) } else { None }).chain(std::iter::once(c.shards)).max().unwrap_or(c.shards);
+    for s in 0..max_shards as usize {
         specs.push(BackendSpec::trust("127.0.0.1", &format!("s{}p", s)));
         if c.replicas {
             specs.push(BackendSpec::trust("127.0.0.2", &format!("s{}r", s)));
@@ -124,8 +132,10 @@ async fn run_case(c: &Case, ctx: &mut WorkerCtx) -> Outcome {
             return o;
         }
     };
-    let n = c.shards as u64;
-    let reff = |k: i64| -> usize { (if c.sha1 { refhash::sha1_shard(k, n) } else { refhash::pg_partition(k, n) }) as usize };
+    // current configuration (changes at a Reload step)
+    let mut cur_n = c.shards;
+    let mut cur_sha1 = c.sha1;
+    let reff = |k: i64, n: u8, sha1: bool| -> usize { (if sha1 { refhash::sha1_shard(k, n as u64) } else { refhash::pg_partition(k, n as u64) }) as usize };
     let mut shard: Option<usize> = None;
     let mut seen_shards = std::collections::HashSet::new();
     let mut out_of_range = false;
@@ -140,6 +150,27 @@ async fn run_case(c: &Case, ctx: &mut WorkerCtx) -> Outcome {
             Step::SetShard(s) => format!("SET SHARD TO '{}'", s),
             Step::SetKey(k) => format!("SET SHARDING KEY TO '{}'", k),
             Step::ShowShard => "SHOW SHARD".to_string(),
+            Step::Reload(n, sha1) => {
+                // new file, RELOAD through the admin console (answered when the reload is done), then an explicit selection
+                // that is valid under both configurations
+                let toml = config_for(&env.mocks, *n, *sha1, c.replicas).to_toml(env.pg.port);
+                env.pg.write_config(&toml);
+                let ok = match env.admin().await {
+                    Ok(mut a) => {
+                        let (m, e) = a.simple("RELOAD", wire::T_REPLY).await;
+                        matches!(e, ReadEnd::Ready(_)) && !m.iter().any(|x| x.code == b'E')
+                    }
+                    Err(_) => false,
+                };
+                if !ok {
+                    o.inconclusive = Some("RELOAD of a valid file failed".into());
+                    break;
+                }
+                cur_n = *n;
+                cur_sha1 = *sha1;
+                o.label("reload_changed_sharding");
+                "SET SHARD TO '0'".to_string()
+            }
             Step::Query => {
                 let t = cli.tag();
                 tag = Some(t);
@@ -148,20 +179,20 @@ async fn run_case(c: &Case, ctx: &mut WorkerCtx) -> Outcome {
             Step::CommentKey(k) => {
                 let t = cli.tag();
                 tag = Some(t);
-                shard = Some(reff(*k));
+                shard = Some(reff(*k, cur_n, cur_sha1));
                 format!("/* sharding_key: {} */ {} SELECT v FROM other_table", k, t.render())
             }
             Step::CommentShard(s) => {
                 let t = cli.tag();
                 tag = Some(t);
-                let s = *s as usize % c.shards as usize;
+                let s = *s as usize % cur_n as usize;
                 shard = Some(s);
                 format!("/* shard_id: {} */ {} SELECT v FROM other_table", s, t.render())
             }
             Step::LiteralKey(k, shape) => {
                 let t = cli.tag();
                 tag = Some(t);
-                shard = Some(reff(*k));
+                shard = Some(reff(*k, cur_n, cur_sha1));
                 match shape {
                     0 => format!("{} SELECT * FROM data WHERE id = {}", t.render(), k),
                     1 => format!("{} SELECT * FROM data WHERE data.id = {} AND v = 'x'", t.render(), k),
@@ -178,7 +209,7 @@ async fn run_case(c: &Case, ctx: &mut WorkerCtx) -> Outcome {
         let errs = crate::cli::errors(&m);
         match st {
             Step::SetShard(s) => {
-                if (*s as usize) < c.shards as usize {
+                if (*s as usize) < cur_n as usize {
                     if !errs.is_empty() {
                         o.fail("valid-set-shard-refused", format!("{} answered {:?}", sql, errs));
                         break;
@@ -187,17 +218,24 @@ async fn run_case(c: &Case, ctx: &mut WorkerCtx) -> Outcome {
                 } else {
                     out_of_range = true;
                     if errs.is_empty() {
-                        o.fail("out-of-range-set-shard-accepted", format!("{} with {} shards was not refused", sql, c.shards));
+                        o.fail("out-of-range-set-shard-accepted", format!("{} with {} shards was not refused", sql, cur_n));
                         break;
                     }
                 }
+            }
+            Step::Reload(..) => {
+                if !errs.is_empty() {
+                    o.fail("valid-set-shard-refused", format!("{} right after the reload answered {:?}", sql, errs));
+                    break;
+                }
+                shard = Some(0);
             }
             Step::SetKey(k) => {
                 if !errs.is_empty() {
                     o.fail("set-sharding-key-refused", format!("{} answered {:?}", sql, errs));
                     break;
                 }
-                shard = Some(reff(*k));
+                shard = Some(reff(*k, cur_n, cur_sha1));
             }
             Step::ShowShard => {
                 let rows = crate::cli::row_texts(&m);
@@ -232,7 +270,7 @@ async fn run_case(c: &Case, ctx: &mut WorkerCtx) -> Outcome {
                     };
                     o.fail(
                         &format!("executed-on-wrong-shard:{}", path),
-                        format!("{:?} was executed on backend {} (shard {}) but the selected shard is {} (of {})", sql, env.mocks[*bad].label, bad / per, want, c.shards),
+                        format!("{:?} was executed on backend {} (shard {}) but the selected shard is {} (of {})", sql, env.mocks[*bad].label, bad / per, want, cur_n),
                     );
                     break;
                 }
